@@ -144,6 +144,17 @@ claim("C16",
       "only probed natively (bounded: 4x4 / 4x2x2 images, 4 coils, dense reference optimum); coil count concrete; weights without coil axis; comm=None.",
       "contract-based deductive verification (symbolic execution of the real constructors against callee contracts, linear-form equality, z3) + bounded native probe")
 
+claim("C17",
+      "The per-voxel invariants are proved on the real code with symbolic voxel grids (2-D, 3-D) and 2-3 coils as value arrays: PowerMethod._update with the "
+      "constructor's own `normalize` closure (extracted mechanically) leaves max_eig real >= 0 with max_eig^2 = sum_c |A x|_c^2 and, where it is non-zero, every "
+      "voxel's coil vector of unit l2 norm and parallel to A x; EspiritCalib._output makes the first coil real and non-negative, multiplies every coil by the same "
+      "unit phase (magnitudes unchanged) where eigenvalue > crop and returns exactly zero where eigenvalue <= crop, and returns alg.max_eig as the eigenvalue map; "
+      "the composition lemma gives 'unit norm or exactly zero'. AST obligations pin the wiring PowerMethod(forward, self.mps, norm_func=normalize) -> App.",
+      "Eigenvalues <= 1 and recovery of the true maps are properties of the sliding-window calibration operator and of power-iteration convergence: bounded native "
+      "probe only (random / birdcage data, 2-8 coils, 2-D/3-D, calib/kernel widths, thresh, crop varied) - never counted as proved. Preconditions: A x non-zero and "
+      "first-coil value non-zero at the voxel (else numpy yields NaN; all-zero k-space does).",
+      "contract-based deductive verification (symbolic execution of the real update/output code on value arrays, z3 QF_NRA with functional sqrt) + AST obligations + bounded native probe")
+
 claim("C18",
       "The real poisson() is executed symbolically (image/calibration extents, accel, tol symbolic; the numba kernel replaced by its contract): on every "
       "returning path the mask is binary, has the requested shape/dtype, |nx*ny/sum(mask)-accel| < tol for exactly the returned mask, the calibration block "
